@@ -25,12 +25,19 @@ def lines_common(c):
 
 
 def lines_nrt(c):
-    return lines_common(c) + [f'start 0 {c["root"]}', 'nrt 1000000', 'dump']
+    ls = lines_common(c) + [f'start 0 {c["root"]}', 'nrt 1000000', 'dump']
+    if c.get('rerun'):
+        ls += [f'restart 0 {c["root"]}', 'nrt 1000000', 'dump']
+    return ls
 
 
 def lines_rt(c, out):
-    return (lines_common(c) + [f'start {out["start"]} {c["root"]}'] +
-            [f'm {m[0]} {m[1]}' for m in out['moves']] + ['dump'])
+    ls = (lines_common(c) + [f'start {out["start"]} {c["root"]}'] +
+          [f'm {m[0]} {m[1]}' for m in out['moves']] + ['dump'])
+    if c.get('rerun') and out.get('rerun'):
+        r2 = out['rerun']
+        ls += [f'restart {r2["start"]} {c["root"]}'] + [f'm {m[0]} {m[1]}' for m in r2['moves']] + ['dump']
+    return ls
 
 
 # ---- expected timelines from the script alone (no queue, no scheduler) ---------------------------
@@ -72,7 +79,7 @@ def expected(case, start=0, clocks_exact=True):
     one spawn action (what the C05 generator produces)."""
     start = F(start)
     maps = [TempoMap(t, start) for t in case['tempi']]
-    R, L, spawn_at = {}, {}, {}
+    R, L, spawn_at, defer_at = {}, {}, {}, {}
 
     def b2s(clk, b):
         return b if clk in ('sys', 'app') else maps[int(clk[1:])].beats2secs(b)
@@ -95,6 +102,8 @@ def expected(case, start=0, clocks_exact=True):
                 L[rid].append((b, s))
             elif a[0] == 'spawn':
                 spawn_at.setdefault(a[1], (a[2], s))
+            elif a[0] == 'defer':
+                defer_at[a[1]] = (a[2], s2b(a[2], s) + F(a[3]))
             elif a[0] in ('tempo', 'etempo') and mutate:
                 maps[a[1]].change(s, a[2])
 
@@ -108,6 +117,10 @@ def expected(case, start=0, clocks_exact=True):
                 done.add(r)
                 timeline(r, spawn_at[r][0], spawn_at[r][1], False)
                 progress = True
+    for r, (clk, b) in defer_at.items():        # one-shot function tasks: defer(func, d, clock)
+        R[(r, 0)] = (clk, b, b2s(clk, b))
+        L[r] = [(b, b2s(clk, b)) for a in case['rts'][r] if a[0] == 'log']
+        spawn_at[r] = (clk, b2s(clk, b))
     return R, L, spawn_at
 
 
@@ -200,7 +213,17 @@ class Check(common.Check):
                 tclk = [int(c[1:]) for c in clocks if c[0] == 't'] or list(range(nt))
                 rts[0].insert(rng.randrange(len(rts[0]) + 1),
                               [rng.choice(['tempo', 'tempo', 'etempo']), rng.choice(tclk), rng.choice(TEMPI)])
-        single = len({root} | {a[2] for s in rts for a in s if a[0] == 'spawn'}) == 1
+        if rng.random() < 0.4:
+            # defer(func, d, clock) = clock.sched(d, func) from a routine, mostly on the clock it is playing on
+            for _ in range(rng.randint(1, 2)):
+                r = rng.randrange(n)
+                own = root if r == 0 else next(a[2] for s in rts for a in s if a[0] == 'spawn' and a[1] == r)
+                c = own if rng.random() < 0.8 else rng.choice(clocks)
+                if c == 'app' and klass != 'D':
+                    c = 'sys'
+                rts.append([['log']] if rng.random() < 0.8 else [])
+                rts[r].insert(rng.randrange(len(rts[r]) + 1), ['defer', len(rts) - 1, c, rng.choice(DELTAS)])
+        single = len({root} | {a[2] for s in rts for a in s if a[0] in ('spawn', 'defer')}) == 1
         has_tempo = any(a[0] in ('tempo', 'etempo') for a in rts[0])
         has_etempo = any(a[0] == 'etempo' for a in rts[0])
         if klass == 'D':
@@ -217,7 +240,9 @@ class Check(common.Check):
             late = {'mode': mode, 'vals': vals}
         # main.process(tailtime): the tail only lengthens the score, logical time ends at the last wake-up
         tail = rng.choice(['0', '0', '1/2', '2', '3'])
-        return {'tempi': tempi, 'root': root, 'rts': rts, 'late': late, 'klass': klass, 'tail': tail}
+        # play the SAME routine objects a second time (NRT: after main.reset(); RT: later)
+        return {'tempi': tempi, 'root': root, 'rts': rts, 'late': late, 'klass': klass, 'tail': tail,
+                'rerun': rng.random() < 0.3}
 
     def gen(self, rng, n):
         return [self.gen_one(rng) for _ in range(n)]
@@ -256,20 +281,21 @@ class Check(common.Check):
             raise RuntimeError('driver failed: ' + err)
         out = [l for l in out if l != 'reset']
         res, k = [], 0
-        for has_rt in plan:
-            d = {'nrt': out[k], 'rt': None}
+        for c, has_rt in zip(cases, plan):
+            d = {'nrt': out[k], 'rt': None, 'nrt2': None, 'rt2': None}
             k += 1
+            if c.get('rerun'):
+                d['nrt2'] = out[k]
+                k += 1
             if has_rt:
                 d['rt'] = out[k]
                 k += 1
+                rt = self._rt.get(common.canon(c))
+                if c.get('rerun') and rt.get('rerun'):
+                    d['rt2'] = out[k]
+                    k += 1
             res.append(d)
         return res
-
-    @staticmethod
-    def rt_early(rt):
-        evs, _, _ = parse_trace(rt['trace'])
-        rs = [F(p[5]) for p in evs if p[0] == 'R']
-        return len(rs) == len(rt['phys']) and any(F(ph) < lg for lg, ph in zip(rs, rt['phys']))
 
     def compare(self, case, io, mo):
         d = {}
@@ -277,6 +303,11 @@ class Check(common.Check):
             d['nrt'] = {'impl': io['nrt']['trace'], 'model': mo['nrt']}
         if io['rt'] is not None and not io['rt'].get('skipped') and io['rt']['trace'] != mo['rt']:
             d['rt'] = {'impl': io['rt']['trace'], 'model': mo['rt'], 'moves': io['rt']['moves']}
+        if io['nrt'].get('rerun') and io['nrt']['rerun']['trace'] != mo.get('nrt2'):
+            d['nrt-rerun'] = {'impl': io['nrt']['rerun']['trace'], 'model': mo.get('nrt2')}
+        if (io['rt'] is not None and io['rt'].get('rerun') and mo.get('rt2') is not None
+                and io['rt']['rerun']['trace'] != mo['rt2']):
+            d['rt-rerun'] = {'impl': io['rt']['rerun']['trace'], 'model': mo['rt2']}
         return d or None
 
     # ---- oracle: timelines computed from the script alone -----------------------------------------
@@ -286,7 +317,7 @@ class Check(common.Check):
         seen = set()
         lcount = {}
         late = case.get('late') or {}
-        single = len({case['root']} | {a[2] for s in case['rts'] for a in s if a[0] == 'spawn'}) == 1
+        single = len({case['root']} | {a[2] for s in case['rts'] for a in s if a[0] in ('spawn', 'defer')}) == 1
         has_tempo = any(a[0] in ('tempo', 'etempo') for s in case['rts'] for a in s)
         secs_exact = mode == 'nrt' or not has_tempo or single or late.get('mode') == 'zero'
         for p in evs:
@@ -349,6 +380,20 @@ class Check(common.Check):
             return {'what': f'NRT: after main.process(tailtime={case.get("tail", "0")}) the logical time is '
                             f'{nrt["elapsed"]} s; the last performed instant is {fr(max(ts))} s (tail time and bundle '
                             f'latencies only lengthen the score)', 'signature': 'c05:nrt-elapsed'}
+        if nrt.get('rerun'):
+            v = self.check_run(case, nrt['rerun'], 'nrt', 0)
+            if v:
+                v['what'] = 'second play of the same routine objects after main.reset(): ' + v['what']
+                v['signature'] = 'c05:replay:nrt'
+                return v
+        if out['rt'] is not None and not out['rt'].get('skipped') and out['rt'].get('rerun'):
+            r2 = out['rt']['rerun']
+            if not (r2.get('error') or '').startswith('livelock'):
+                v = self.check_run(case, r2, 'rt', F(r2['start']))
+                if v:
+                    v['what'] = 'second play of the same routine objects: ' + v['what']
+                    v['signature'] = 'c05:replay:rt'
+                    return v
         if out['rt'] is not None and not out['rt'].get('skipped'):
             rt = out['rt']
             if rt.get('error') and rt['error'].startswith('livelock'):
@@ -409,7 +454,7 @@ class Check(common.Check):
         while len(case['rts']) > 1:
             n = len(case['rts']) - 1
             uses = any(a[0] == 'spawn' and a[1] != n and False for s in case['rts'] for a in s)
-            rts = [[a for a in s if not (a[0] == 'spawn' and a[1] == n)] for s in case['rts'][:n]]
+            rts = [[a for a in s if not (a[0] in ('spawn', 'defer', 'pull') and a[1] == n)] for s in case['rts'][:n]]
             cand = {**case, 'rts': rts}
             if not uses and fails(cand):
                 case = cand
